@@ -83,7 +83,7 @@ Proof. apply inv_push_newline. Qed.
 
 Lemma inv_push_string f o s : stream_inv f o -> stream_inv f (os_push_string f o s).
 Proof.
-  intros H. unfold os_push_string. destruct (splitlines s) as [|l0 ls]; [exact H|].
+  intros H. unfold os_push_string. destruct (split_crlf s) as [|l0 ls]; [exact H|].
   assert (G : forall ls o', stream_inv f o' ->
               stream_inv f (fold_left (fun o'' l => os_push (os_push_newline f o'' (Some None)) l) ls o')).
   { induction ls0 as [|l ls0 IH]; intros o' H'; cbn [fold_left]; [exact H'|].
